@@ -69,7 +69,7 @@ type dialOutcome struct {
 
 func runC02(c *harness.Ctx) {
 	t := c.T
-	kind := t.Draw("kind", 8)
+	kind := t.Draw("kind", 9)
 	iat := 0
 	setBias(false)
 	steerPads(c, obfs4PadRanges...)
@@ -77,7 +77,7 @@ func runC02(c *harness.Ctx) {
 	rid := refIdentity(id)
 	cf, _ := transports.Get("obfs4").ClientFactory("")
 	ending := false
-	kinds := []string{"control", "client-wrong-identity", "impostor-server", "tampered-response", "concurrent-clients", "impostor-low-order", "low-order-identity-key", "server-key-after-failed-answers"}
+	kinds := []string{"control", "client-wrong-identity", "impostor-server", "tampered-response", "concurrent-clients", "impostor-low-order", "low-order-identity-key", "server-key-after-failed-answers", "answer-recorded-cut-and-replayed"}
 	c.Info["kind"] = kinds[kind]
 	c.Feature("kind-" + kinds[kind])
 	if kind == 2 || kind == 5 || kind == 6 {
@@ -111,6 +111,88 @@ func runC02(c *harness.Ctx) {
 	}
 
 	switch kind {
+	case 8:
+		// An on-path party lets the client's handshake through to the genuine
+		// bridge, records the answer, delivers none (or only a part) of it and
+		// cuts the connection.  Whatever connection the client opens next - its
+		// Dial is given a dialer, not a connection - is answered by a peer that
+		// holds no key at all and plays the recording back.  The recording is
+		// only worth something if the client repeats its ephemeral key.
+		sf, err := obfs4Server(id)
+		if err != nil {
+			panic(err)
+		}
+		var recorded []byte
+		var reqs [][]byte // what the client put on each wire connection
+		nconn := 0
+		srvDone := false
+		// (the shortest possible answer - no padding - has 96 bytes: the cut always falls inside it)
+		cutAt := int64([]int{0, 0, 1, 31, 32, 64, 95}[t.Draw("cutat", 7)])
+		cutKind := []string{simnet.FaultCutRST, simnet.FaultCutEOF}[t.Draw("cutkind", 2)]
+		dialer := func(string, string) (net.Conn, error) {
+			i := nconn
+			nconn++
+			l := c.Net.NewLink(fmt.Sprintf("c%d", i), fmt.Sprintf("s%d", i))
+			reqs = append(reqs, nil)
+			l.A.OnWrite = func(b []byte) { reqs[i] = append(reqs[i], b...) }
+			if i == 0 {
+				l.B.OnWrite = func(b []byte) { recorded = append(recorded, b...) }
+				l.BA.AddFault(simnet.Fault{Kind: cutKind, Offset: cutAt})
+				c.S.Go("s0/accept", func() {
+					conn, err := sf.WrapConn(l.B)
+					if err == nil {
+						conn.Close()
+					}
+					srvDone = true
+				})
+				return l.A, nil
+			}
+			if i > 3 {
+				return nil, fmt.Errorf("verif: connection refused")
+			}
+			c.S.Go(fmt.Sprintf("s%d/playback", i), func() {
+				// wait for the recording to be complete (the bridge has answered)
+				for k := 0; k < 500 && !srvDone; k++ {
+					c.S.Sleep(10 * time.Millisecond)
+				}
+				l.B.Write(recorded)
+				buf := make([]byte, 4096)
+				for {
+					if _, err := l.B.Read(buf); err != nil {
+						return
+					}
+				}
+			})
+			return l.A, nil
+		}
+		var out dialOutcome
+		c.S.Go("c/dial", func() {
+			pa, err := cf.ParseArgs(clientArgsFor(rid, iat, false))
+			if err != nil {
+				panic(err)
+			}
+			conn, err := cf.Dial("tcp", "10.0.0.2:443", dialer, pa)
+			out.conn, out.err, out.took, out.done = conn, err, time.Since(start), true
+		})
+		c.S.Run(func() bool { return out.done }, 5*time.Minute)
+		c.S.Count("fault.answer-recorded-cut-replayed", 1)
+		c.Reached, c.Nontrivial = true, true
+		ending = true
+		mustFail(&out, fmt.Sprintf("the genuine answer was recorded, the connection cut (%s after %d bytes of it), and the recording played back on the %d further connection(s) the client opened", cutKind, cutAt, nconn-1))
+		if c.S.Violated() {
+			return
+		}
+		for i := range reqs {
+			for j := i + 1; j < len(reqs); j++ {
+				if len(reqs[i]) >= 32 && len(reqs[j]) >= 32 && bytes.Equal(reqs[i][:32], reqs[j][:32]) {
+					c.Violate("C02/ephemeral-key-reused", "the client put the same 32-byte representative (its ephemeral public key) on wire connections %d and %d of one Dial", i, j)
+					return
+				}
+			}
+		}
+		if nconn > 1 {
+			c.Feature("client-opened-further-connections")
+		}
 	case 7:
 		// fresh ephemeral keys under faults: the answers of a few connections
 		// fail to go out (the client resets, or the write fails, somewhere
